@@ -138,7 +138,7 @@ structure Linked (dec : String → G) (cw : String → Nat) (s : HState) (e : Em
 
 /-- **One frame.** From linked states, the emulator model runs the frame's sequences without panic,
     ends linked again, and shows the application's screen and cursor. -/
-theorem emu_frame_shows (dec : String → G) (cw : String → Nat) (hsp : cw "20" = 1) (hd : dec "20" = [32]) (hemp : dec "" = [])
+theorem emu_frame_shows (dec : String → G) (cw : String → Nat) (hsp : cw "20" = 1) (hd : dec "20" = [32]) (hemp : dec "" = []) (hlp : LpOk dec)
     (rows cols : Nat) (s : HState) (e : Emu) (fi : FrameIn) (hl : Linked dec cw s e rows cols)
     (hag : fi.refresh = false → Agree cw emuCaps s.t s.last)
     (hok : FrameInOk cw emuCaps rows cols fi) (hok2 : EmuFrameOk dec cw fi) :
@@ -151,7 +151,7 @@ theorem emu_frame_shows (dec : String → G) (cw : String → Nat) (hsp : cw "20
     refine C01.cursor_as_requested cw cw (mkFrame emuCaps s fi) s.t ?_ hl.cursor
     rw [hl.ready.trows, hl.ready.tcols]; exact hok.2.2.2.2
   have h59 : 59 ∉ dec "" := by rw [hemp]; simp
-  have hvoc := frame_ok dec cw (mkFrame emuCaps s fi) rfl rfl rfl rfl hsp (by rw [hd]; simp) h59 hok2.1 hok2.2
+  have hvoc := frame_ok dec cw (mkFrame emuCaps s fi) rfl rfl rfl rfl hsp (by rw [hd]; simp) h59 hlp hok2.1 hok2.2
   obtain ⟨e', hr, hs'⟩ := run_sim cw _ s.t e hl.sim b1 hvoc
   refine ⟨e', hr, ⟨r1, hcur, hs'⟩, a1, ?_, ?_⟩
   · have := hs'.grid
@@ -180,7 +180,7 @@ theorem emu_frame_shows (dec : String → G) (cw : String → Nat) (hsp : cw "20
       rw [← hvis]; exact hc
 
 /-- **Histories, from any linked pair that still shows the previous frame.** -/
-theorem emu_history_shows (dec : String → G) (cw : String → Nat) (hsp : cw "20" = 1) (hd : dec "20" = [32]) (hemp : dec "" = [])
+theorem emu_history_shows (dec : String → G) (cw : String → Nat) (hsp : cw "20" = 1) (hd : dec "20" = [32]) (hemp : dec "" = []) (hlp : LpOk dec)
     (rows cols : Nat) :
     ∀ (fis : List FrameIn) (s : HState) (e : Emu), Linked dec cw s e rows cols → Agree cw emuCaps s.t s.last →
       (∀ fi ∈ fis, FrameInOk cw emuCaps rows cols fi ∧ EmuFrameOk dec cw fi) → ∀ fi, fis.getLast? = some fi →
@@ -190,7 +190,7 @@ theorem emu_history_shows (dec : String → G) (cw : String → Nat) (hsp : cw "
   | nil => intro s e _ _ _ fi h; simp at h
   | cons a rest ih =>
     intro s e hl hag hok fi hlast
-    obtain ⟨e1, hr1, hl1, ag1, sh1⟩ := emu_frame_shows dec cw hsp hd hemp rows cols s e a hl (fun _ => hag)
+    obtain ⟨e1, hr1, hl1, ag1, sh1⟩ := emu_frame_shows dec cw hsp hd hemp hlp rows cols s e a hl (fun _ => hag)
       (hok a (by simp)).1 (hok a (by simp)).2
     cases rest with
     | nil =>
@@ -221,7 +221,7 @@ theorem start_ready (cols rows : Nat) : Ready (startDisplay cols rows) (blankGri
     the application's screen cell for cell (grapheme, width, colours, attributes, underline,
     hyperlink and its parameters) and its cursor is hidden or visible at the requested position in
     the requested shape. -/
-theorem emu_shows_application (dec : String → G) (cw : String → Nat) (hsp : cw "20" = 1) (hd : dec "20" = [32]) (hemp : dec "" = [])
+theorem emu_shows_application (dec : String → G) (cw : String → Nat) (hsp : cw "20" = 1) (hd : dec "20" = [32]) (hemp : dec "" = []) (hlp : LpOk dec)
     (rows cols : Nat) (e0 : Emu) (h0 : DSim dec (startDisplay cols rows) e0 rows cols)
     (fi0 : FrameIn) (fis : List FrameIn) (hr0 : fi0.refresh = true)
     (hok : ∀ fi ∈ fi0 :: fis, FrameInOk cw emuCaps rows cols fi ∧ EmuFrameOk dec cw fi)
@@ -230,7 +230,7 @@ theorem emu_shows_application (dec : String → G) (cw : String → Nat) (hsp : 
       Lemmas.Emu.EmuInv e' rows cols := by
   have hl : Linked dec cw (startState cols rows) e0 rows cols :=
     ⟨start_ready cols rows, by simp [CursorAs, startState, startDisplay], h0⟩
-  obtain ⟨e1, hr1, hl1, ag1, sh1⟩ := emu_frame_shows dec cw hsp hd hemp rows cols (startState cols rows) e0 fi0 hl
+  obtain ⟨e1, hr1, hl1, ag1, sh1⟩ := emu_frame_shows dec cw hsp hd hemp hlp rows cols (startState cols rows) e0 fi0 hl
     (fun h => by rw [hr0] at h; exact absurd h (by simp)) (hok fi0 (by simp)).1 (hok fi0 (by simp)).2
   cases fis with
   | nil =>
@@ -239,7 +239,7 @@ theorem emu_shows_application (dec : String → G) (cw : String → Nat) (hsp : 
     exact ⟨e1, by simp only [runFrames, hr1, bind, Except.bind], sh1, hl1.sim.inv⟩
   | cons b rest =>
     rw [List.getLast?_cons_cons] at hlast
-    obtain ⟨e2, hr2, sh2⟩ := emu_history_shows dec cw hsp hd hemp rows cols (b :: rest) _ e1 hl1 ag1
+    obtain ⟨e2, hr2, sh2⟩ := emu_history_shows dec cw hsp hd hemp hlp rows cols (b :: rest) _ e1 hl1 ag1
       (fun fi h => hok fi (by simp [h])) fi hlast
     exact ⟨e2, by simp only [runFrames, hr1, bind, Except.bind]; exact hr2, sh2⟩
 
@@ -259,6 +259,13 @@ theorem emu_start_related (dec : String → G) (hemp : dec "" = []) (w h : Int) 
 /-- A width function and a byte decoding for the example: "" has width 0 and no bytes, "57" is wide. -/
 def cwEx : String → Nat := fun g => if g = "" then 0 else if g = "57" then 2 else 1
 def decEx : String → G := fun s => if s = "" then [] else if s = "20" then [32] else [97]
+
+theorem lpOk_decEx : LpOk decEx := by
+  intro s
+  unfold decEx
+  split
+  · simp
+  · split <;> simp
 
 def grid1 : Grid := [[({ g := "57" } : Cell), {}, { g := "61", style := { fg := 16777217, attr := 2, link := "68", linkParams := "69" } }]]
 def grid2 : Grid := [[({ g := "62" } : Cell), { g := "63" }, { g := "61", style := { fg := 16777217, attr := 2 } }]]
@@ -282,14 +289,14 @@ example :
     · simp only [grid1, grid2, List.mem_cons, List.not_mem_nil, or_false] at hr
       subst hr
       simp only [List.mem_cons, List.not_mem_nil, or_false] at hc
-      rcases hc with rfl | rfl | rfl <;> exact ⟨⟨rfl, by decide, Or.inl rfl⟩, by decide, by decide, by decide⟩
+      rcases hc with rfl | rfl | rfl <;> exact ⟨⟨rfl, by decide, Or.inl rfl⟩, by decide, by decide⟩
   have hfits : ∀ (g : Grid), (g = grid1 ∨ g = grid2) → C01.Fits cwEx g := by
     intro g hg r hr
     rcases hg with rfl | rfl <;>
     · simp only [grid1, grid2, List.mem_cons, List.not_mem_nil, or_false] at hr
       subst hr
       simp [C01.FitsRow, Expected.cellWidth, cwEx]
-  obtain ⟨e', hr, hsh⟩ := emu_shows_application decEx cwEx rfl rfl rfl 1 3 e1 hs fi0 [fi1] rfl
+  obtain ⟨e', hr, hsh⟩ := emu_shows_application decEx cwEx rfl rfl rfl lpOk_decEx 1 3 e1 hs fi0 [fi1] rfl
     (by
       intro fi hfi
       simp only [List.mem_cons, List.not_mem_nil, or_false] at hfi
@@ -341,7 +348,7 @@ theorem clipIn_emuOk (dec : String → G) (cw : String → Nat) (hsp : cw "20" =
   have hk := h.1 l hl c0 h0
   rcases hc0 with rfl | rfl
   · exact hk
-  · exact ⟨by show cw "20" ≤ 2; rw [hsp]; omega, fun _ => by show dec "20" ≠ []; rw [hd]; simp, hk.2.2⟩
+  · exact ⟨by show cw "20" ≤ 2; rw [hsp]; omega, fun _ => by show dec "20" ≠ []; rw [hd]; simp⟩
 
 /-- **C12, composition theorem for the renderer as it is now, for all frame histories.** As
     `emu_shows_application`, over `renderFrameC` (the transcription of `render()` after the F02 repair),
@@ -349,14 +356,14 @@ theorem clipIn_emuOk (dec : String → G) (cw : String → Nat) (hsp : cw "20" =
     emulator's grid shows the application's screen cell for cell — a glyph that cannot be shown because
     it is wider than the rest of its row shows as a blank in its style — and the cursor is as requested. -/
 theorem emu_shows_application_now (dec : String → G) (cw : String → Nat) (hsp : cw "20" = 1) (hd : dec "20" = [32])
-    (hemp : dec "" = []) (rows cols : Nat) (e0 : Emu) (h0 : DSim dec (startDisplay cols rows) e0 rows cols)
+    (hemp : dec "" = []) (hlp : LpOk dec) (rows cols : Nat) (e0 : Emu) (h0 : DSim dec (startDisplay cols rows) e0 rows cols)
     (fi0 : FrameIn) (fis : List FrameIn) (hr0 : fi0.refresh = true)
     (hok : ∀ fi ∈ fi0 :: fis, C01Clip.FrameInOkC cw emuCaps rows cols fi ∧ EmuFrameOk dec cw fi)
     (fi : FrameIn) (hlast : (fi0 :: fis).getLast? = some fi) :
     ∃ e', runFramesC dec cw (startState cols rows) e0 (fi0 :: fis) = .ok e' ∧ ShowsC dec cw fi e' ∧
       Lemmas.Emu.EmuInv e' rows cols := by
   rw [runFramesC_eq]
-  obtain ⟨e', hr, hs⟩ := emu_shows_application dec cw hsp hd hemp rows cols e0 h0 (C01Clip.clipIn cw fi0)
+  obtain ⟨e', hr, hs⟩ := emu_shows_application dec cw hsp hd hemp hlp rows cols e0 h0 (C01Clip.clipIn cw fi0)
     (fis.map (C01Clip.clipIn cw)) hr0
     (by
       intro x hx
@@ -397,7 +404,7 @@ theorem runFramesC_append (dec : String → G) (cw : String → Nat) :
     history ends in an emulator state that shows frame `k` — and the run over the whole history passes
     through that state (`runFramesC_append`). -/
 theorem emu_shows_every_frame (dec : String → G) (cw : String → Nat) (hsp : cw "20" = 1) (hd : dec "20" = [32])
-    (hemp : dec "" = []) (rows cols : Nat) (e0 : Emu) (h0 : DSim dec (startDisplay cols rows) e0 rows cols)
+    (hemp : dec "" = []) (hlp : LpOk dec) (rows cols : Nat) (e0 : Emu) (h0 : DSim dec (startDisplay cols rows) e0 rows cols)
     (fi0 : FrameIn) (fis : List FrameIn) (hr0 : fi0.refresh = true)
     (hok : ∀ fi ∈ fi0 :: fis, C01Clip.FrameInOkC cw emuCaps rows cols fi ∧ EmuFrameOk dec cw fi)
     (k : Nat) (fk : FrameIn) (hk : (fi0 :: fis)[k]? = some fk) :
@@ -416,7 +423,7 @@ theorem emu_shows_every_frame (dec : String → G) (cw : String → Nat) (hsp : 
       rw [List.length_take]; simp only [List.length_cons] at hlen ⊢; omega
     rw [this, List.getElem?_take]
     simpa using hk
-  obtain ⟨ek, hr, hs, _⟩ := emu_shows_application_now dec cw hsp hd hemp rows cols e0 h0 fi0 (fis.take k) hr0
+  obtain ⟨ek, hr, hs, _⟩ := emu_shows_application_now dec cw hsp hd hemp hlp rows cols e0 h0 fi0 (fis.take k) hr0
     (by
       intro fi hfi
       apply hok
@@ -437,7 +444,7 @@ example :
       runOps e0 [.csi [63, 108] [(25, [])]] = .ok e1 ∧
       runFramesC decEx cwEx (startState 2 1) e1 [fiF02] = .ok e' ∧ ShowsC decEx cwEx fiF02 e' := by
   obtain ⟨e0, e1, h0, h1, hs⟩ := emu_start_related decEx rfl 2 1 (by decide) (by decide) (by decide) (by decide)
-  obtain ⟨e', hr, hsh⟩ := emu_shows_application_now decEx cwEx rfl rfl rfl 1 2 e1 hs fiF02 [] rfl
+  obtain ⟨e', hr, hsh⟩ := emu_shows_application_now decEx cwEx rfl rfl rfl lpOk_decEx 1 2 e1 hs fiF02 [] rfl
     (by
       intro fi hfi
       simp only [List.mem_cons, List.not_mem_nil, or_false] at hfi
@@ -452,7 +459,7 @@ example :
         simp only [fiF02, gridF02, List.mem_cons, List.not_mem_nil, or_false] at hr
         subst hr
         simp only [List.mem_cons, List.not_mem_nil, or_false] at hc
-        rcases hc with rfl | rfl <;> exact ⟨by decide, by decide, by decide⟩)
+        rcases hc with rfl | rfl <;> exact ⟨by decide, by decide⟩)
     fiF02 rfl
   exact ⟨e0, e1, e', h0, h1, hr, hsh.1⟩
 
@@ -767,14 +774,14 @@ theorem runFramesM_eq (merges : String → String → Bool) (cat : String → St
     a frame merge (`NoMergeGrid`, for whatever `merges` / `cat` the parser implements). -/
 theorem emu_shows_application_clustered (merges : String → String → Bool) (cat : String → String → String)
     (dec : String → G) (cw : String → Nat) (hsp : cw "20" = 1) (hd : dec "20" = [32])
-    (hemp : dec "" = []) (rows cols : Nat) (e0 : Emu) (h0 : DSim dec (startDisplay cols rows) e0 rows cols)
+    (hemp : dec "" = []) (hlp : LpOk dec) (rows cols : Nat) (e0 : Emu) (h0 : DSim dec (startDisplay cols rows) e0 rows cols)
     (fi0 : FrameIn) (fis : List FrameIn) (hr0 : fi0.refresh = true)
     (hok : ∀ fi ∈ fi0 :: fis, C01Clip.FrameInOkC cw emuCaps rows cols fi ∧ EmuFrameOk dec cw fi ∧ NoMergeGrid merges fi.next)
     (fi : FrameIn) (hlast : (fi0 :: fis).getLast? = some fi) :
     ∃ e', runFramesM merges cat dec cw (startState cols rows) e0 (fi0 :: fis) = .ok e' ∧ ShowsC dec cw fi e' ∧
       Lemmas.Emu.EmuInv e' rows cols := by
   rw [runFramesM_eq merges cat dec cw _ _ _ (fun fi h => (hok fi h).2.2)]
-  exact emu_shows_application_now dec cw hsp hd hemp rows cols e0 h0 fi0 fis hr0
+  exact emu_shows_application_now dec cw hsp hd hemp hlp rows cols e0 h0 fi0 fis hr0
     (fun fi h => ⟨(hok fi h).1, (hok fi h).2.1⟩) fi hlast
 
 end VaxisModel.Props.C12
